@@ -122,9 +122,13 @@ func (ce *ContentExtractor) ensureTitleInitialized() {
 		return
 	}
 
-	title := ce.Parser.Title()
-	if title != "" {
-		ce.candidateTitles = append(ce.candidateTitles, title)
+	// A page that opts out of the markup provides no markup information,
+	// its title included.
+	if !ce.Parser.OptOut() {
+		title := ce.Parser.Title()
+		if title != "" {
+			ce.candidateTitles = append(ce.candidateTitles, title)
+		}
 	}
 
 	documentTitle := getDocumentTitle(ce.documentElement, ce.WordCounter)
